@@ -236,8 +236,15 @@ func runStageFile(o *opts) {
 					break
 				}
 				for k, a := range l.Inputs {
+					if a == nil {
+						continue
+					}
 					kk, aa := k, *a
-					edit(func(s *stage.Stage) { s.Inputs[kk].IsDir = !aa.IsDir })
+					edit(func(s *stage.Stage) {
+						if x := s.Inputs[kk]; x != nil {
+							x.IsDir = !aa.IsDir
+						}
+					})
 					edit(func(s *stage.Stage) { delete(s.Inputs, kk) })
 					break
 				}
